@@ -834,7 +834,10 @@ class ApplicationStartJobs(ApplicationJobs):
             # store the selection and apply the identifier to all commands
             self.identifiers = [identifier]
             for command in commands:
-                command.update_identifier(identifier)
+                # NOTE: a process may have been removed from the Supvisors instance since the job has been planned
+                #       (the remaining processes of the application define the possible identifiers)
+                if identifier in command.process.info_map:
+                    command.update_identifier(identifier)
         else:
             self.logger.debug('ApplicationStartJobs.distribute_to_single_instance: no Supvisors instance found to plan'
                               f' the starting of {self.application_name} with load={application_load}')
